@@ -22,11 +22,11 @@ import (
 
 func init() {
 	Register(&Property{
-		ID:   "C18",
-		Run:  runC18,
-		Rule: "runs = one (expiry, max bytes, max line) configuration x 100-3000 calls (Printf with line lengths 0..2x the line limit, repeated and fresh lines; ExpireLogs at cut times before / between / after stored timestamps; DumpLogEntries) with clock advances of 0 ns (ties), nanoseconds, around the expiry, and simulated years; after every call the dump is compared with a bounded-log reference model (ties in update time accept any consistent eviction); non-trivial = at least one eviction and one expiry that freed space happened; distinct = distinct decision signatures",
-		Real: []string{"glow.EventLogger (Printf, ExpireLogs, DumpLogEntries)"},
-		Stub: []string{"system clock (synctest bubble clock)"},
+		ID:             "C18",
+		Run:            runC18,
+		Rule:           "runs = one (expiry, max bytes, max line) configuration x 100-3000 calls (Printf with line lengths 0..2x the line limit, repeated and fresh lines; ExpireLogs at cut times before / between / after stored timestamps; DumpLogEntries) with clock advances of 0 ns (ties), nanoseconds, around the expiry, and simulated years; after every call the dump is compared with a bounded-log reference model (ties in update time accept any consistent eviction); non-trivial = at least one eviction and one expiry that freed space happened; distinct = distinct decision signatures",
+		Real:           []string{"glow.EventLogger (Printf, ExpireLogs, DumpLogEntries)"},
+		Stub:           []string{"system clock (synctest bubble clock)"},
 		RequiredProbes: []string{"c18.eviction", "c18.expiry-freed", "c18.reuse-after-expiry", "c18.tie", "c18.too-long-for-log", "c18.truncated", "c18.years"},
 	})
 }
